@@ -578,7 +578,11 @@ def run(ck):
     hist = {}
 
     def note(key, kind, what, rep):
-        groups.setdefault(key, (kind, what, rep))
+        old = groups.get(key)
+        if old is None:
+            groups[key] = (kind, what, rep)
+        elif old[0] != "viol" and kind == "viol":
+            groups[key] = (kind, what, dict(rep, text_level_observation=old[1]))
 
     # ---- (i) text level: behaviours
     q = []
@@ -603,6 +607,13 @@ def run(ck):
         if b.name not in emitted_tables:
             emitted_tables[b.name] = parse_symbols(open(src).read())
         em = emitted_tables[b.name]
+        symvar = {}
+        for gk in ("mps", "isvs", "esvs", "pars", "hidden"):
+            for v in blk[gk]:
+                for e in ([None] if v.size == 1 else range(v.size)):
+                    part = v.ext if e is None else "%s_mfront_index_%d" % (v.ext, e)
+                    for sx in SFX + ["ParameterDefaultValue"]:
+                        symvar["%s_%s_%s" % (pfx, part, sx)] = (v, gk == "isvs")
         other_prefixes = [b.f + "_" + x + "_" for x in b.blocks() if x is not None]
         accounted = set()
         for name, val in sorted(model.items()):
@@ -617,7 +628,16 @@ def run(ck):
             what = "symbol %s: declared %s, generated source has %s%s" % (
                 name, show_val(val), show_val(got) if got is not None else "no such symbol",
                 " (but defines %s)" % ", ".join(close) if close and got is None else "")
-            note("%s:%s" % (site_of(kind, name, em), kind), "text", what,
+            v_, pers_ = symvar.get(name, (None, False))
+            cause = None
+            if v_ is not None and val.startswith("r:"):
+                e_ = val[2:]
+                g_ = got[2:] if (got or "").startswith("r:") else "-"
+                if name.endswith("PhysicalBound"):
+                    cause = root_cause(v_, pers_, False, ["-", "-", e_, "-"], ["-", "-", g_, "-"])
+                else:
+                    cause = root_cause(v_, pers_, False, [e_], [g_])
+            note(cause or "%s:%s" % (site_of(kind, name, em), kind), "text", what,
                  {"behaviour": b.name, "hypothesis": h, "symbol": name, "declared": val, "emitted": got, "emitted_similar": close,
                   "mfront_file": b.text})
         # emitted symbols of the modelled families that the model does not have
@@ -670,7 +690,14 @@ def run(ck):
                 continue
             kind = classify_symbol(name)
             hist["text:mp:" + kind] = hist.get("text:mp:" + kind, 0) + 1
-            note("%s:material-property:%s" % (site_of(kind, name, em), kind), "text",
+            cause = None
+            mv = [v for v in m.inputs + m.pars if name.startswith("%s_%s_" % (m.f, v.ext))]
+            if mv and val.startswith("r:"):
+                e_ = val[2:]
+                g_ = em[name][2:] if (em.get(name) or "").startswith("r:") else "-"
+                cause = root_cause(mv[0], False, True, ["-", "-", e_, "-"] if name.endswith("PhysicalBound") else [e_],
+                                   ["-", "-", g_, "-"] if name.endswith("PhysicalBound") else [g_])
+            note(cause or "%s:material-property:%s" % (site_of(kind, name, em), kind), "text",
                  "symbol %s: declared %s, generated source has %s" % (name, show_val(val), show_val(em.get(name)) if em.get(name) else "no such symbol"),
                  {"material_property": m.name, "symbol": name, "declared": val, "emitted": em.get(name), "mfront_file": m.text})
         for name, val in sorted(em.items()):
@@ -700,10 +727,10 @@ def run(ck):
                      "the generated sources of %s do not compile" % n, {"library": n, "compiler_log": e.log[-2500:]})
     lines, expect, meta = [], [], []
 
-    def ask(lib, f, h, query, exp, what, rep):
+    def ask(lib, f, h, query, exp, what, rep, var=None, persistent=False):
         lines.append("%s %s %s %s\n" % (lib, f, h or "-", query))
         expect.append(exp)
-        meta.append((what, rep))
+        meta.append((what, rep, var, persistent))
     lean_q, lean_idx = [], []
     for b in progs[:nb_lib]:
         lib = libs.get("libC45_%s.so" % b.name)
@@ -726,9 +753,10 @@ def run(ck):
             for key in ("mps", "isvs", "esvs", "pars", "hidden"):
                 for v in blk[key]:
                     for k, n in enumerate(v.listed()):
-                        ask(lib, b.f, h, "bounds " + n, expected_bounds(v), "bounds" if v.size == 1 else "bounds-array-element", dict(rep, variable=n))
+                        ask(lib, b.f, h, "bounds " + n, expected_bounds(v), "bounds" if v.size == 1 else "bounds-array-element", dict(rep, variable=n),
+                            v, key == "isvs")
                         if key == "pars":
-                            ask(lib, b.f, h, "default " + n, bits(float(v.dflt[k])), "default", dict(rep, variable=n, declared_default=v.dflt[k]))
+                            ask(lib, b.f, h, "default " + n, bits(float(v.dflt[k])), "default", dict(rep, variable=n, declared_default=v.dflt[k]), v)
             # the same questions to the Lean readers
             if b.block_of(h) is not None:
                 common = b.block(None) if None in b.blocks() else blk
@@ -747,10 +775,10 @@ def run(ck):
             ask(mplib, m.f, None, "str law", "[%s]" % m.name, "general", rep)
             ask(mplib, m.f, None, "str material", "[%s]" % m.material, "general", rep)
             for v in m.inputs:
-                ask(mplib, m.f, None, "mpbounds " + v.ext, expected_bounds(v), "mp-bounds", dict(rep, variable=v.ext))
+                ask(mplib, m.f, None, "mpbounds " + v.ext, expected_bounds(v), "mp-bounds", dict(rep, variable=v.ext), v)
             for p in m.pars:
-                ask(mplib, m.f, None, "mpbounds " + p.ext, expected_bounds(p), "mp-bounds", dict(rep, variable=p.ext))
-                ask(mplib, m.f, None, "mpdefault " + p.ext, bits(float(p.dflt[0])), "mp-default", dict(rep, variable=p.ext, declared_default=p.dflt[0]))
+                ask(mplib, m.f, None, "mpbounds " + p.ext, expected_bounds(p), "mp-bounds", dict(rep, variable=p.ext), p)
+                ask(mplib, m.f, None, "mpdefault " + p.ext, bits(float(p.dflt[0])), "mp-default", dict(rep, variable=p.ext, declared_default=p.dflt[0]), p)
         # setParameter = regeneration with that default value (twin law), compared on calls
         for (m, p, newv, tname) in twins:
             tf = (m.material + "_" if m.material else "") + tname
@@ -761,7 +789,7 @@ def run(ck):
             for a in args:
                 call = "mpcall %d %s" % (len(a), " ".join(bits(x) for x in a))
                 ask(mplib, tf, None, call, None, "twin", rep)
-                ask(mplib, m.f, None, call, "same-as-previous", "setparameter", dict(rep, arguments=[repr(x) for x in a]))
+                ask(mplib, m.f, None, call, "same-as-previous", "setparameter", dict(rep, arguments=[repr(x) for x in a]), ("twin", newv))
                 stats["setparameter_calls"] += 1
     pi = ck.run([harness], input="".join(lines), timeout=280, env=mfront_env())
     got = pi.stdout.splitlines()
@@ -770,7 +798,7 @@ def run(ck):
     stats["elm_queries"] = len(got)
     for i, g in enumerate(got):
         exp = expect[i]
-        what, rep = meta[i]
+        what, rep, var, persistent = meta[i]
         if exp is None:
             continue
         if exp == "same-as-previous":
@@ -780,8 +808,11 @@ def run(ck):
             continue
         query = lines[i].split(None, 3)[3].strip()
         rep = dict(rep, query=query, declared=show_answer(exp), library_answer=show_answer(g))
-        site = ELM_SITE if what in ("hyps",) else GEN_SITE
-        note("elm:%s:%s" % (what, diff_class(exp, g)), "viol",
+        if isinstance(var, tuple):          # setParameter against the twin law: differs when the twin's default was written with 14 digits
+            cause = CAUSE_B if float("%.14g" % float(var[1])) != float(var[1]) else None
+        else:
+            cause = root_cause(var, persistent, what.startswith("mp-"), exp.split(","), g.split(",")[:len(exp.split(","))])
+        note(cause or "elm:%s:%s" % (what, diff_class(exp, g)), "viol",
              "ExternalLibraryManager on the library generated for %s, query `%s`%s: declared %s, library says %s" % (
                  rep.get("behaviour") or rep.get("material_property"), query, " (%s)" % rep["hypothesis"] if rep.get("hypothesis") else "",
                  show_answer(exp), show_answer(g)), rep)
@@ -810,24 +841,8 @@ def run(ck):
     for m in mps[:4]:
         mfront_query_matprop(ck, m, gendir, note, hist, stats)
 
-    viols = {k: v for k, v in groups.items() if v[0] == "viol" and k.startswith("elm:")}
     for key, (kind, what, rep) in sorted(groups.items()):
-        found = kind == "viol"
-        if kind == "text":
-            # a text-level difference is a failing input of the property once a compiled library answers wrongly for the same reason
-            cat = key.rsplit(":", 1)[-1] if not key.endswith("unexpected-symbol") else key.split(":")[-2]
-            want = {"parameter-default": ["elm:default:value", "elm:mp-default:value"],
-                    "bounds": ["elm:bounds:value", "elm:mp-bounds:value", "elm:bounds:presence", "elm:mp-bounds:presence"],
-                    "physical-bounds": ["elm:bounds:presence", "elm:mp-bounds:presence", "elm:bounds:value", "elm:mp-bounds:value"],
-                    "bounds-array-element": ["elm:bounds-array-element:presence"],
-                    "physical-bounds-array-element": ["elm:bounds-array-element:presence"]}.get(cat, [])
-            if "material-property" in key:
-                want = [w for w in want if ":mp-" in w] + [w for w in want if ":mp-" not in w]
-            wit = [w for w in want if w in viols]
-            found = bool(wit)
-            if found:
-                rep = dict(rep, failing_query=viols[wit[0]][2])
-        ck.violation(key, what, rep, found)
+        ck.violation(key, what, rep, kind == "viol")
 
     ck.assumptions += [
         "M: Lean model of the symbol scheme (emit) and of the readers (read); compared with the MFRONT_EXPORT_* lines of the generated "
@@ -850,6 +865,45 @@ def run(ck):
         "wf_checked": stats["wf_checked"], "histogram": dict(sorted(hist.items())),
         "samples": ["%s -> %s" % (lines[i].strip().split(None, 1)[1][:90], got[i]) for i in range(0, len(got), max(1, len(got) // 6))][:6],
     })
+
+
+CAUSE_A = "mfront/src/CodeGeneratorUtilities.cxx:writeBoundsSymbols:array-element-symbol-name"
+CAUSE_B = "mfront/src/CodeGeneratorUtilities.cxx:exported-values:14-digits"
+CAUSE_C = "mfront/src/CodeGeneratorUtilities.cxx:writeVariablesBoundsSymbols:physical-bounds-need-standard-bounds"
+CAUSE_D = "mfront/src/BehaviourData.cxx:checkAndCompletePhysicalBoundsDeclaration:persistent-variables"
+
+
+def close_bits(a, b):
+    """two exported values that agree to about 13 significant digits: an output-precision effect"""
+    try:
+        x, y = frombits(a), frombits(b)
+    except Exception:
+        return False
+    return x != y and abs(x - y) <= 1e-12 * max(abs(x), abs(y))
+
+
+def root_cause(v, persistent, is_mp, exp, got):
+    """root cause of a difference on the fields exp/got (lists of tokens, `-` = absent) of variable v, when it is one of
+    the defects already understood; None otherwise (the observation keeps its generic key)"""
+    if got == ["exc"]:
+        return None
+    if len(exp) != len(got):
+        return None
+    pres = [(a == "-") != (b == "-") for a, b in zip(exp, got)]
+    if any(pres):
+        if v is not None and v.size > 1 and all(b == "-" for a, b, p_ in zip(exp, got, pres) if p_):
+            return CAUSE_A
+        only_phys = all((i >= 2 and b == "-") for i, (a, b, p_) in enumerate(zip(exp, got, pres)) if p_)
+        if v is not None and only_phys and len(exp) == 4:
+            if is_mp and v.bounds is None:
+                return CAUSE_C
+            if (not is_mp) and persistent and v.phys is None and v.phys_inherited is not None:
+                return CAUSE_D
+        return None
+    diff = [(a, b) for a, b in zip(exp, got) if a != b]
+    if diff and all(close_bits(a, b) for a, b in diff):
+        return CAUSE_B
+    return None
 
 
 def same_subject(r1, r2):
